@@ -63,6 +63,31 @@ def retrieval_eval(prog):
             ev.call_func(rfu, [o, "sch://host/doc#/x"], {})
             if len(h.calls) != 1:
                 out["cached"] = "a cached document is retrieved again (%d retrievals)" % len(h.calls)
+        # 3b. falsy documents ({} and false are schemas too) are cached like any other; escaped URLs are used as written
+        for doc in ({}, False, [], 0):
+            h5 = Handler({"sch://host/empty": doc})
+            ev5, o5, R5, st5 = _resolver(prog, {"sch": h5})
+            rfu5 = ev5.find_method(R5, "resolve_from_url")
+            a = ev5.call_func(rfu5, [o5, "sch://host/empty"], {})
+            b = ev5.call_func(rfu5, [o5, "sch://host/empty#"], {})
+            if len(h5.calls) != 1 or "sch://host/empty" not in st5.attrs["store"] or a is not doc or b is not doc:
+                out["cached"] = out["cached"] or "the retrieved document %r is not cached like any other (retrieved %d times)" % (doc, len(h5.calls))
+        h6 = Handler({"sch://host/my%20doc.json": DOC})
+        ev6, o6, R6, st6 = _resolver(prog, {"sch": h6, "http": h6}, store={"http://a/my%20doc.json": DOC, "http://a/caf%C3%A9/x%2Fy.json": {"x": "escaped"}})
+        rfu6 = ev6.find_method(R6, "resolve_from_url")
+        try:
+            ok6 = ev6.call_func(rfu6, [o6, "http://a/my%20doc.json#/x/y"], {}) is DOC["x"]["y"] and ev6.call_func(rfu6, [o6, "http://a/caf%C3%A9/x%2Fy.json#/x"], {}) == "escaped"
+        except PyRaise:
+            ok6 = False
+        if not ok6 or h6.calls:
+            out["store-first"] = out["store-first"] or "a stored document whose URL contains percent-escapes is not found under that URL (retrievals attempted: %r)" % (h6.calls,)
+        del h6.calls[:]
+        try:
+            ev6.call_func(rfu6, [o6, "sch://host/my%20doc.json#/x"], {})
+        except PyRaise:
+            pass
+        if h6.calls != ["sch://host/my%20doc.json"]:
+            out["key"] = out["key"] or "a URL with percent-escapes is not retrieved as written (handler saw %r)" % (h6.calls,)
         # 4. cache_remote off: nothing is filed
         h2 = Handler({"sch://host/doc": DOC})
         ev2, o2, R2, st2 = _resolver(prog, {"sch": h2}, cache_remote=False)
@@ -85,7 +110,7 @@ def retrieval_eval(prog):
                 out["wrapped"] = "a failed retrieval leaves an entry in the store"
         # 6. resolve(): the reference is joined to the scope in force; the pair (full URL, what that URL designates) comes back
         h4 = Handler()
-        ev4, o4, R4, st4 = _resolver(prog, {}, store={"http://base/root/other.json": DOC, "http://base/sub/other.json": {"x": "sub"},
+        ev4, o4, R4, st4 = _resolver(prog, {"http": h4}, store={"http://base/root/other.json": DOC, "http://base/sub/other.json": {"x": "sub"},
                                                        "http://base/root/a%2Fb.json": {"x": "escaped"}, "http://base/root/a/b.json": {"x": "plain"},
                                                        "http://base/root/a%20b.json": {"x": "space"}})
         res4 = ev4.find_method(R4, "resolve")
@@ -94,7 +119,10 @@ def retrieval_eval(prog):
         if url != "http://base/root/other.json#/x" or val is not DOC["x"]:
             out["join"] = "resolve('other.json#/x') under scope http://base/root/doc.json gives (%r, %r)" % (url, val)
         for ref, want in (("a%2Fb.json#/x", "escaped"), ("a/b.json#/x", "plain"), ("a%20b.json#/x", "space")):
-            url, val = ev4.call_func(res4, [o4, ref], {})
+            try:
+                url, val = ev4.call_func(res4, [o4, ref], {})
+            except PyRaise as pr:
+                url, val = None, "<%s>" % pr.name
             if val != want or url != "http://base/root/" + ref:
                 out["join"] = "resolve(%r) gives (%r, %r): the URL looked up is not the joined URL as written" % (ref, url, val)
         ev4.call_func(ev4.find_method(R4, "push_scope"), [o4, "../sub/"], {})
